@@ -18,6 +18,7 @@ Sub-spaces (task groups):
 import dataclasses
 import io
 import itertools
+import json
 import uuid
 
 from gtirb_rewriting.dwarf import _encodable as lib_encodable
@@ -1015,6 +1016,19 @@ def _run(task, tier):
                     res.bad(case, diffs)
                 elif sub == "boundary" and abs(v) > (1 << 32):
                     res.sample(case, cap=2)
+    elif kind == "hist":
+        # every sequence of 2 (thorough: 2 or 3) configurations, each in an interpreter of its own: what one configuration
+        # leaves behind in the process (memoised domains, caches on shared encoder objects) must not reach the next
+        depth = 3 if tier == "thorough" else 2
+        for n in range(2, depth + 1):
+            for rest in itertools.product(range(len(CONFIGS)), repeat=n - 1):
+                cfgs = [list(CONFIGS[i]) for i in (task[1],) + rest]
+                diffs = run_hist(cfgs)
+                res.case(("hist", jsonable(cfgs)), outcome="hist:" + ("ok" if not diffs else "diff"))
+                if diffs:
+                    res.bad({"t": "hist", "cfgs": cfgs}, diffs)
+                else:
+                    res.sample({"t": "hist", "cfgs": cfgs}, cap=1)
     else:
         raise KeyError(kind)
     return res
@@ -1030,9 +1044,57 @@ def _one_enc(res, space, t, bo, ptr, group="enc"):
         res.sample(case, cap=2)
 
 
+# ---------------------------------------------------------------------------
+# process histories: the same objects under one configuration after another, in a fresh interpreter
+HIST_RUNNER = r"""
+import sys, json
+sys.path.insert(0, %(root)r)
+from vf.props import c14
+print(json.dumps(c14.run_hist_inproc(json.loads(%(cfgs)r))))
+"""
+
+
+def hist_objects():
+    e1 = nest_alphabet("E1")
+    objs = [("op", t) for t in e1]
+    objs += [("cfa", ("DW_CFA_def_cfa_expression", [t])) for t in e1 if t[0] in ("DW_OP_addr", "DW_OP_const8u", "DW_OP_constu", "DW_OP_breg")]
+    objs += [("cfa", ("DW_CFA_val_expression", 7, [t, ("DW_OP_plus",)])) for t in e1 if t[0] == "DW_OP_addr"]
+    return objs
+
+
+def run_hist_inproc(cfgs):
+    out = []
+    for step, (bo, ptr) in enumerate(cfgs):
+        for space, t in hist_objects():
+            _oc, diffs = check_encode(space, t, bo, ptr)
+            for d in diffs:
+                d["r_step"] = step
+                out.append(d)
+        seq = (("DW_CFA_def_cfa_expression", [("DW_OP_addr", 0x10), ("DW_OP_deref",)]), ("DW_CFA_nop",), ("DW_CFA_def_cfa_expression", [("DW_OP_addr", 0x10), ("DW_OP_deref",)]))
+        for _ in range(2):  # the same bytes parsed twice
+            _oc, diffs = check_parse(seq, bo, ptr)
+            for d in diffs:
+                d["r_step"] = step
+                out.append(d)
+    return out
+
+
+def run_hist(cfgs):
+    import os
+    import subprocess
+    import sys
+
+    root = os.path.dirname(os.path.dirname(os.path.dirname(os.path.abspath(__file__))))
+    code = HIST_RUNNER % {"root": root, "cfgs": json.dumps(cfgs)}
+    p = subprocess.run([sys.executable, "-c", code], capture_output=True, text=True, env=dict(os.environ), timeout=600)
+    if p.returncode != 0:
+        raise RuntimeError("history sub-process failed: " + p.stderr[-400:])
+    return json.loads(p.stdout.strip().splitlines()[-1])
+
+
 # tasks carry their tier as the last element so that workers need no global state
 def tasks(tier):
-    return [t + [tier] for t in _tasks_plain(tier)]
+    return [t + [tier] for t in _tasks_plain(tier)] + [["hist", i, tier] for i in range(len(CONFIGS))]
 
 
 def run_task(task):
@@ -1056,6 +1118,8 @@ def replay(case):
         return check_parse(tuple(neutral(case["seq"])), case["bo"], case["ptr"])[1]
     if t == "const":
         return check_const(case["v"], case["factory"])[1]
+    if t == "hist":
+        return run_hist(case["cfgs"])
     raise KeyError(t)
 
 
